@@ -25,7 +25,7 @@ theorem ienv_let (ρ : Nat → ℝ) (v : Nat) (e : Ex) (h : (v, e) ∈ inversion
 
 theorem gradR_eq (ρ : Nat → ℝ) (s : Nat) (e : Ex) (h : inversionGrad.outs.lookup s = some e) :
     inversionGrad.gradR ρ s = e.evalR (ienv ρ) := by
-  unfold Prog.gradR; rw [h]; rfl
+  rw [Prog.gradR_of_no_guard _ rfl]; unfold Prog.gradRaw; rw [h]; rfl
 
 section
 variable (ρ : Nat → ℝ)
